@@ -486,6 +486,10 @@ class Mini:
                 return self.truth(args[0])
             if f == "cast" and len(args) == 2:
                 return args[1]
+            if f == "sum" and len(args) == 1 and isinstance(args[0], (list, tuple)) and all(isinstance(x, int) for x in args[0]):
+                return sum(args[0])
+            if f in ("any", "all") and len(args) == 1 and isinstance(args[0], (list, tuple)):
+                return (any if f == "any" else all)(self.truth(x) for x in args[0])
             if f == "divmod" and len(args) == 2 and all(isinstance(a, int) for a in args) and args[1] != 0:
                 return tuple(divmod(args[0], args[1]))
             if f == "abs" and len(args) == 1 and isinstance(args[0], int):
